@@ -20,6 +20,8 @@
 //	bigscalar one string of 2..6 MB with its honest length, over []byte and every io.Reader transport
 //	chunks    cbor: indefinite-length strings of 32000..100000 small chunks, ValidateUnicode on and off
 //	tagrun    cbor: 6 million consecutive tags before a value (skipped tags, nested tags 2..5)
+//	depth     the exact MaxDepth boundary (MaxDepth-1 levels decode, MaxDepth levels are an error) for MaxDepth 1..300, and
+//	          10^6 levels under MaxDepth = 32767 (the int16 counter must not wrap)
 //	symbols   binc: a symbol definition of 1..64 KiB (1- / 2-byte id) followed by up to 300000 references, into
 //	          []string / []interface{} / [][]byte / map keys: allocation must stay linear in the input
 //	rand      random bytes, 0..64 long
@@ -73,7 +75,9 @@ type Job struct {
 	XR   int     `json:"xr,omitempty"`
 	XU   string  `json:"xu,omitempty"`
 	XS   string  `json:"xs,omitempty"`
-	NV   int     `json:"nv,omitempty"` // number of values in the input when known by construction (0: unknown)
+	Want int     `json:"w,omitempty"`   // 0: any outcome; 1: must decode without error; 2: must be an error
+	Stk  int     `json:"stk,omitempty"` // stack cap in MB for this job (default 64)
+	NV   int     `json:"nv,omitempty"`  // number of values in the input when known by construction (0: unknown)
 	Kind string  `json:"k"`
 	Ex   int     `json:"e"` // -1: single input; 0..255: every input that starts with this byte and is 1 or 2 bytes long
 }
@@ -220,6 +224,11 @@ func workerMain(path string, from int) {
 			stats[t] = st
 		}
 		var res Result
+		if j.Stk > 0 {
+			debug.SetMaxStack(j.Stk << 20)
+		} else {
+			debug.SetMaxStack(64 << 20)
+		}
 		if j.Ex < 0 {
 			in := j.input()
 			res.Cls, res.Nread = judgeOne(f, j.O, st, t, func() codec.Handle { return hx.Handle(f, j.O) }, in, j.NV, &res)
@@ -710,6 +719,8 @@ func tagRun(c *ctx, n int) {
 		{"c482c4", "82", "", false}, // decimal fraction whose exponent is a decimal fraction whose ... (F02-5)
 		{"c582c5", "82", "", false},
 		{"", "c482", "0102", false},
+		{"", "c48200", "01", false}, // ... whose MANTISSA is a decimal fraction whose ...
+		{"", "c58200", "01", false},
 		{"", "c2", "4105", false},
 	}
 	for q := 0; q < n; q++ {
@@ -727,6 +738,59 @@ func tagRun(c *ctx, n int) {
 				cnt := 6000000 * 3 / (len(p.unit) / 2) / 3
 				c.jobs = append(c.jobs, Job{F: int(f), D: di, O: o, X: hex.EncodeToString(pre), XR: cnt, XU: p.unit, XS: p.suf, Kind: "tagrun", Ex: -1})
 			}
+		}
+	}
+}
+
+// depth: the exact MaxDepth boundary (nesting of MaxDepth - 1 levels decodes, of MaxDepth levels and more is an error:
+// what depthIncr does) for small MaxDepth, and MaxDepth = math.MaxInt16, where the int16 counter must not wrap
+func depthStream(c *ctx) {
+	for _, f := range hx.All {
+		for _, md := range []int{1, 2, 3, 16, 300} {
+			for lv := md - 1; lv <= md+1; lv++ {
+				if lv < 1 {
+					continue
+				}
+				for _, name := range []string{"iface", "[]iface", "T", "Raw"} {
+					if name == "Raw" && f == hx.Json {
+						continue // json's skip scanner is iterative and does not count depth
+					}
+					_, di := hx.DestByName(name)
+					var in []byte
+					levels := lv
+					switch name {
+					case "T": // {"P": {"P": ... {} }}: lv struct levels
+						for i := 0; i < lv-1; i++ {
+							in = append(in, hx.MapStr(f, "P")...)
+						}
+						in = append(in, hx.MapStr(f, "zz")...)
+						in = append(in, hx.One(f)...)
+						for i := 0; i < lv; i++ {
+							in = append(in, hx.CloseMap(f)...)
+						}
+					default:
+						in = append(bytes.Repeat(hx.Arr1(f), lv), hx.One(f)...)
+						in = append(in, bytes.Repeat(hx.CloseArr(f), lv)...)
+					}
+					for tr := 0; tr < 2; tr++ {
+						o := hx.Opts{MaxDepth: md, WriteExt: true, IO: tr == 1, RBS: 64 * tr}
+						want := 1
+						if levels >= md {
+							want = 2
+						}
+						c.jobs = append(c.jobs, Job{F: int(f), D: di, O: o, X: hex.EncodeToString(in), Kind: "depth", Ex: -1, Want: want})
+					}
+				}
+			}
+		}
+		for _, name := range []string{"iface", "T"} {
+			_, di := hx.DestByName(name)
+			unit := hx.Arr1(f)
+			if name == "T" {
+				unit = hx.MapStr(f, "P")
+			}
+			c.jobs = append(c.jobs, Job{F: int(f), D: di, O: hx.Opts{MaxDepth: 32767, WriteExt: true}, XR: 1000000, XU: hex.EncodeToString(unit),
+				XS: hex.EncodeToString(hx.One(f)), Kind: "depth", Ex: -1, Want: 2, Stk: 400})
 		}
 	}
 }
@@ -971,6 +1035,7 @@ func main() {
 	symbolStream(c, *nSym)
 	chunkStream(c, *nChunk)
 	tagRun(c, *nTag)
+	depthStream(c)
 	// shuffle the single jobs so that shards are balanced, keep the blocks at the end spread round-robin
 	for i := len(c.jobs) - 1; i > 0; i-- {
 		k := c.r.Intn(i + 1)
@@ -1090,6 +1155,12 @@ func main() {
 					"ok-without-progress": "Decode returned no error without consuming a byte",
 				}[b.Why]
 				sum.FailC(j.Kind, b.Why+":"+cid, what, cb)
+			}
+			if j.Want == 1 && res.Cls != 0 {
+				sum.FailC(j.Kind, "refused-below-maxdepth:"+cid, "input nested less than MaxDepth levels was refused", cj)
+			}
+			if j.Want == 2 && res.Cls == 0 {
+				sum.FailC(j.Kind, "accepted-at-maxdepth:"+cid, "input nested MaxDepth levels or more decoded without error", cj)
 			}
 			if j.Ex < 0 {
 				in := j.input()
